@@ -13,7 +13,7 @@
    on every run (they fail exactly on the known C03/C12 findings). *)
 From Coq Require Import Sorting.Permutation.
 From GJ Require Import Base Kernel KernelSpec KernelProofs IntersectsProofs Series SeriesSpec SeriesProofs
-  Ring RingSpec PipProofs PairProofs PairSpec Pairs Invariance AffinePairs Jordan Crossing Mirror MirrorY Symmetry.
+  Ring RingSpec PipProofs PairProofs PairSpec Pairs Invariance AffinePairs Jordan Crossing Mirror MirrorY Symmetry LineSound LineComplete SymmetryLine.
 Open Scope Z_scope.
 
 (* translation by (dx,dy) and scaling by k > 0 (k = 2^j in the property) *)
@@ -143,6 +143,17 @@ Example C12_reflection_examples :
   in_ringb (ring_edges (map mir ps)) (mir (1, 5)) = true.
 Proof. vm_compute. repeat split. Qed.
 
+(* Line.ContainsLine under the reflections and the transposition (hence all eight symmetries of the square) *)
+Theorem C12_line_contains_line_mirror_x : forall ps qs,
+  line_contains_line (Lr (map mir ps)) (Lr (map mir qs)) = line_contains_line (Lr ps) (Lr qs).
+Proof. exact line_contains_line_mx. Qed.
+Theorem C12_line_contains_line_mirror_y : forall ps qs,
+  line_contains_line (Lr (map my ps)) (Lr (map my qs)) = line_contains_line (Lr ps) (Lr qs).
+Proof. exact line_contains_line_my. Qed.
+Theorem C12_line_contains_line_transpose : forall ps qs,
+  line_contains_line (Lr (map tr ps)) (Lr (map tr qs)) = line_contains_line (Lr ps) (Lr qs).
+Proof. exact line_contains_line_tr. Qed.
+
 Print Assumptions C12_raycast_affine.
 Print Assumptions C12_crossing_parity.
 Print Assumptions C12_ring_membership_mirror_x.
@@ -157,3 +168,5 @@ Print Assumptions C12_intersects_segment_affine.
 Print Assumptions C12_polygon_membership_affine.
 Print Assumptions C12_membership_candidate_order.
 Print Assumptions C12_convex_start_vertex.
+Print Assumptions C12_line_contains_line_mirror_x.
+Print Assumptions C12_line_contains_line_transpose.
